@@ -34,7 +34,7 @@ def showView (r : Repo) : String :=
   let w := if r.wcs.isEmpty then "-" else ";".intercalate (r.wcs.map fun (n, c) => s!"{n}:{c}")
   s!"h={showNatList (sortNat r.heads)}|b={b}|w={w}"
 
-def runOps : List Op → Nat → Repo → List String → List String
+def runOps (monitor : Bool) : List Op → Nat → Repo → List String → List String
   | [], _, _, acc => acc.reverse
   | op :: rest, i, r, acc =>
     match step r op with
@@ -43,13 +43,18 @@ def runOps : List Op → Nat → Repo → List String → List String
       let acc := if ok then acc else s!"err@{i}" :: acc
       let acc := match op with
         | .commit => showView r' :: acc
+        -- monitor of the premise of `rebase_inv_partial`; the implementation never prints this token
+        | .rebase => if !monitor || checkRebaseRefsOk r then acc else s!"!rebase-premise@{i}" :: acc
         | _ => acc
-      runOps rest (i + 1) r' acc
+      runOps monitor rest (i + 1) r' acc
 
 def handle : List String → Option String
   | "run" :: ops => do
     let ops ← ops.mapM parseOp
-    some (" ".intercalate (runOps ops 0 Repo.init []))
+    some (" ".intercalate (runOps true ops 0 Repo.init []))
+  | "runlow" :: ops => do
+    let ops ← ops.mapM parseOp
+    some (" ".intercalate (runOps false ops 0 Repo.init []))
   | _ => none
 
 end JjModel.Drv.C10
